@@ -342,20 +342,37 @@ def r7(cx):
         else:
             cx.violation(ck, "strictly-below-argument", "%s: a segment whose last entry equals the argument can be deleted; recovery calls truncate_before(flushed + 1), "
                          "so the first unflushed entry's segment is removed right after its replay into memory" % b.sp(rb), [b.sp(rb)])
+    truncate_callers(cx)
+
+
+def truncate_callers(cx):
+    """shared by C01.R7 and C05.R7: what callers may pass to truncate_before"""
     sites = cx.prog.sites(lambda c: c == WAL + "truncate_before")
     cx.floor("truncate_before call sites", len(sites), 2)
     for k, c in sites:
         bb = cx.body(k)
         org = M.operand_origins(bb, bb.term(c["b"])["args"][1], at=(c["b"], M.T))
-        mark = M.has_call(org, lambda x: x == "ingester::wal::load_flushed_seq" or (x.endswith("::load") and "atomic" in x))
+        persisted = M.has_call(org, lambda x: x == "ingester::wal::load_flushed_seq")
+        inmem = M.has_call(org, lambda x: x.endswith("::load") and "atomic" in x)
         consts = {o[1] for o in org if o[0] == "const"}
         bins = {o[1][2] for o in org if o[0] == "bin"}
-        ok = mark and consts <= {"1"} and bins <= {"Add", "AddWithOverflow"}
-        if ok:
-            cx.passed(k, "argument-at-most-mark-plus-one", [c["sp"]], "mark%s" % (" + 1" if consts else ""))
-        else:
+        ok = (persisted or inmem) and consts <= {"1"} and bins <= {"Add", "AddWithOverflow"}
+        if not ok:
             cx.violation(k, "argument-at-most-mark-plus-one", "%s: truncate_before receives something other than the flushed mark or mark + 1 (constants %s, operators %s)"
                          % (c["sp"], sorted(consts), sorted(bins)), [c["sp"]])
+            continue
+        if consts and not persisted:
+            # mark + 1 removes the segment that holds the mark itself: only safe once that mark is on disk
+            ps = set()
+            for pb in M.find_calls(bb, lambda x: x == "ingester::wal::persist_flushed_seq"):
+                ps |= M.outcome_edges(bb, pb)[0]
+            if ps and bb.dominated_by_edges(c["b"], ps):
+                cx.passed(k, "argument-at-most-mark-plus-one", [c["sp"]], "mark + 1 after the mark was persisted")
+            else:
+                cx.violation(k, "mark-plus-one-before-persist", "%s: truncate_before(mark + 1) deletes the segment holding the highest sequence number before that mark is "
+                             "persisted; a crash in between leaves neither a surviving entry nor a current flushed file, and numbering restarts below acknowledged entries" % c["sp"], [c["sp"]])
+            continue
+        cx.passed(k, "argument-at-most-mark-plus-one", [c["sp"]], "mark%s" % (" + 1 (persisted mark)" if consts else ""))
 
 
 MAXMIN = {"std::cmp::Ord::max", "std::cmp::Ord::min", "std::cmp::max", "std::cmp::min", "core::cmp::Ord::max", "core::cmp::Ord::min"}
